@@ -5,7 +5,7 @@ C=$1; shift
 PROPS="$C $*"
 export GOFLAGS=-mod=mod GOPROXY=off GOSUMDB=off GOTOOLCHAIN=local
 cd /repo || exit 1
-if [ -n "$(git log --oneline main..wt-$C)" ]; then
+if [ -z "${SKIP_PICK:-}" ] && [ -n "$(git log --oneline main..wt-$C)" ]; then
   git cherry-pick main..wt-$C || { echo "REPO CHERRY-PICK CONFLICT"; git status --short | head; exit 1; }
 fi
 go build ./... && go build -tags verif ./... || { echo "REPO BUILD FAILS"; exit 1; }
